@@ -114,6 +114,12 @@ def bounded_search(pid, known_kinds):
         runs.append({"scenario": "crash (strace inject SIGKILL)", "argv": [], "exit": 0, "searched": r.get("searched"), "found": bool(r.get("found")), "evaluations": r.get("evaluations")})
         if r.get("found"):
             findings.append(r)
+    if pid == "C18":
+        import syncsearch
+        r = syncsearch.search(binary)
+        runs.append({"scenario": "sync interval (strace)", "argv": [], "exit": 0, "searched": r.get("searched"), "found": bool(r.get("found"))})
+        if r.get("found"):
+            findings.append(r)
     if pid == "C09":
         import durability
         r = durability.search(binary)
